@@ -53,6 +53,8 @@ class Feat:
         self.generic_layout = False
         self.raw_symbolic_slot = False
         self.big_offsets = False
+        self.if_weight = 3
+        self.guards = 2
         self.__dict__.update(kw)
 
 
@@ -277,6 +279,8 @@ class ProgGen:
     def stmt(self, bdepth, lbl):
         ch, a, f = self.ch, self.a, self.f
         kinds = ["mstore", "if"]
+        if bdepth > 0:
+            kinds += ["if"] * f.if_weight
         if f.storage:
             kinds += ["sstore", "sstore", "sload_obs"]
         if f.transient:
@@ -425,11 +429,17 @@ class ProgGen:
             else:
                 a.push(0)
         if f.symbolic_target and ch.chance(0.3, lbl + ".symto"):
+            # generation bound: a symbolic target is never a precompile / cheatcode address
+            # (halmos' alias resolution only considers deployed accounts and "no code")
             self.input_word(lbl + "t")
-            a.push((1 << 160) - 1).op("AND")
+            a.push(0xFFFF).op("AND").push(0x1000).op("OR")
         else:
             a.push(to)
-        a.op("GAS").op(kind)
+        if ch.chance(0.1, lbl + ".gasop"):
+            a.op("GAS")
+        else:
+            a.push(ch.choose([0xFFFF, 0, 100000], lbl + ".gasc"))
+        a.op(kind)
         # observe success flag and returndata
         k = ch.pick(4, lbl + ".obs")
         if k == 0:
@@ -470,7 +480,7 @@ class ProgGen:
             # call the created contract
             a.op("DUP1").push(0x120).op("MSTORE")
             a.push(0x20).push(0xC0).push(0).push(0x80).push(0)
-            a.push(0x120).op("MLOAD").op("GAS").op("CALL").op("POP").op("POP")
+            a.push(0x120).op("MLOAD").push(0xFFFF).op("CALL").op("POP").op("POP")
 
     def block(self, bdepth, lbl, allow_term, max_stmts=None):
         ch = self.ch
@@ -480,7 +490,21 @@ class ProgGen:
         if allow_term and ch.chance(0.35, lbl + ".term"):
             self.terminator(lbl + "t")
 
+    def guard_chain(self, lbl):
+        """if (cond_i) { block; terminator } ...  - a dispatcher-like prefix that forks paths early"""
+        ch, a = self.ch, self.a
+        n = ch.int(0, self.f.guards, lbl + ".gn")
+        for i in range(n):
+            nxt = a.fresh("guard")
+            self.cond(f"{lbl}g{i}")
+            a.op("ISZERO").jumpi(nxt)
+            self.block(max(self.f.max_block_depth - 1, 0), f"{lbl}G{i}", allow_term=False, max_stmts=2)
+            self.terminator(f"{lbl}G{i}t")
+            a.label(nxt)
+
     def program(self) -> bytes:
+        if self.f.guards and not self.is_init:
+            self.guard_chain(self.name)
         self.block(self.f.max_block_depth, self.name, allow_term=False)
         self.terminator(self.name + "T")
         for tag, data in getattr(self, "pending_data", []):
